@@ -1425,6 +1425,15 @@ func exprList(es []string) string {
 	return "ECons (" + es[0] + ") (" + exprList(es[1:]) + ")"
 }
 
+func isBuiltinCall(c *ast.CallExpr, name string) bool {
+	id, ok := c.Fun.(*ast.Ident)
+	if !ok || id.Name != name {
+		return false
+	}
+	_, isB := info.Uses[id].(*types.Builtin)
+	return isB
+}
+
 func (t *ftr) isExtRead(c *ast.CallExpr) bool {
 	if isPkgFunc(c, "io", "ReadFull") {
 		return true
@@ -1574,7 +1583,7 @@ func (t *ftr) stmt1(s ast.Stmt) string {
 		}
 		// a call assigned to its destinations (struct-typed values are flattened)
 		if len(x.Rhs) == 1 {
-			if c, ok := ast.Unparen(x.Rhs[0]).(*ast.CallExpr); ok && len(x.Lhs) == 1 {
+			if c, ok := ast.Unparen(x.Rhs[0]).(*ast.CallExpr); ok && len(x.Lhs) == 1 && isBuiltinCall(c, "copy") {
 				if nd, okD := t.blankOrLval(x.Lhs[0]); okD {
 					if st, okC := t.copyStmt(c, nd); okC {
 						return st
@@ -2566,7 +2575,18 @@ func aliasCheck(fd *ast.FuncDecl, t *ftr) string {
 							bad = "append to something that is not a variable"
 						}
 					case "copy":
-						bad = "copy"
+						// in a world function: dst[:k] = src[:k] with src evaluated first (memmove);
+						// parameters and receiver fields are taken to be distinct storage
+						if t.world >= 0 && len(x.Args) == 2 {
+							if o, ok := isSliceVar(x.Args[0]); ok {
+								get(o).written = true
+								allowed[x.Args[0]] = true
+							} else {
+								bad = "copy into something that is not a variable"
+							}
+						} else {
+							bad = "copy"
+						}
 					}
 				}
 			}
@@ -2747,6 +2767,10 @@ func aliasCheck(fd *ast.FuncDecl, t *ftr) string {
 		}
 		name := t.names[o]
 		if o < t.nparams {
+			if t.world >= 0 && t.written[o] && !f.appended {
+				// written in place by copy / Read: the new contents are handed back as an out
+				continue
+			}
 			return "aliasing discipline: parameter " + name + " is written or appended to"
 		}
 		if f.badAssign != "" {
